@@ -384,154 +384,179 @@ def run_real(case):
     c._lock = S.CoopLock(sched, 'lock', probe=lambda: spy.inside_thread)
     c._stop_event = S.CoopEvent(sched, 'stop')
     c._update_recording_thread = S.CoopThread(sched, 'flusher', c._recording_loop)
-    c.start()
-    closer = case.get('closer', 'join')
-    caller_errors = []
-    handles = []
-    precreated = {}
-    if closer != 'join':
-        # close() may come before another producer starts: recordings are created up front (create_new_recording after
-        # close() raises the documented AssertionError)
-        for p, prog in enumerate(programs):
-            for op in prog:
-                if (p, op['r']) not in precreated:
-                    rec = c.create_new_recording('Cat')
-                    spy.adopt(rec.wrapped_recording, rec_id(p, op['r']))
-                    precreated[(p, op['r'])] = rec
+    # whatever the wrapper creates LATER (a thread made in start(), a second event, ...) must live under the scheduler too:
+    # the module's own names are stand-ins for the duration of the run
+    made = {'n': 0}
 
-    def do_close(who):
-        sched.emit('close_call')
-        try:
-            c.close()
-        except Exception as ex:
-            caller_errors.append([who, 'close', type(ex).__name__])
-        sched.emit('close_return')
+    def later(kind):
+        def factory(*a, **k):
+            made['n'] += 1
+            name = '%s-made-later-%d' % (kind, made['n'])
+            if kind == 'thread':
+                return S.CoopThread(sched, 'flusher' if c._update_recording_thread.t is None and made['n'] == 1 else name,
+                                    k.get('target') or (a[0] if a else None))
+            if kind == 'event':
+                return S.CoopEvent(sched, name)
+            return S.CoopLock(sched, name, probe=lambda: spy.inside_thread)
+        return factory
+    def _body():
+        def all_requested():
+            return all(progress[p] >= len(programs[p]) for p in range(len(programs)))
+        c.start()
+        closer = case.get('closer', 'join')
+        caller_errors = []
+        handles = []
+        precreated = {}
+        if closer != 'join':
+            # close() may come before another producer starts: recordings are created up front (create_new_recording after
+            # close() raises the documented AssertionError)
+            for p, prog in enumerate(programs):
+                for op in prog:
+                    if (p, op['r']) not in precreated:
+                        rec = c.create_new_recording('Cat')
+                        spy.adopt(rec.wrapped_recording, rec_id(p, op['r']))
+                        precreated[(p, op['r'])] = rec
 
-    def producer(p):
-        def body():
-            recs = {}
-            for q, op in enumerate(programs[p]):
-                if closer != 'join' and closer['p'] == p and closer['at'] == q:
-                    do_close('p%d' % p)
-                if not is_request(op):
-                    if (p, op['r'], op['key']) in lists:
-                        sched.emit('mutate', p, q)
-                        lists[(p, op['r'], op['key'])].append(0)
-                    progress[p] += 1
-                    continue
-                try:
-                    if op['r'] not in recs:
-                        if (p, op['r']) in precreated:
-                            recs[op['r']] = precreated[(p, op['r'])]
+        def do_close(who):
+            sched.emit('close_call')
+            try:
+                c.close()
+            except Exception as ex:
+                caller_errors.append([who, 'close', type(ex).__name__])
+            sched.emit('close_return')
+
+        def producer(p):
+            def body():
+                recs = {}
+                for q, op in enumerate(programs[p]):
+                    if closer != 'join' and closer['p'] == p and closer['at'] == q:
+                        do_close('p%d' % p)
+                    if not is_request(op):
+                        if (p, op['r'], op['key']) in lists:
+                            sched.emit('mutate', p, q)
+                            lists[(p, op['r'], op['key'])].append(0)
+                        progress[p] += 1
+                        continue
+                    try:
+                        if op['r'] not in recs:
+                            if (p, op['r']) in precreated:
+                                recs[op['r']] = precreated[(p, op['r'])]
+                            else:
+                                recs[op['r']] = c.create_new_recording('Cat')
+                                spy.adopt(recs[op['r']].wrapped_recording, rec_id(p, op['r']))
+                        r = recs[op['r']]
+                        sched.emit('req_start', p, q)
+                        if op['k'] == 'set':
+                            r.set_data('k%d' % op['key'], op_value(op, lists, p))
+                        elif op['k'] == 'meta':
+                            r.add_metadata({'m%d' % op['key']: op['val']})
                         else:
-                            recs[op['r']] = c.create_new_recording('Cat')
-                            spy.adopt(recs[op['r']].wrapped_recording, rec_id(p, op['r']))
-                    r = recs[op['r']]
-                    sched.emit('req_start', p, q)
-                    if op['k'] == 'set':
-                        r.set_data('k%d' % op['key'], op_value(op, lists, p))
-                    elif op['k'] == 'meta':
-                        r.add_metadata({'m%d' % op['key']: op['val']})
-                    else:
-                        c.save_recording(r)
-                    sched.emit('req_end', p, q)
-                except Exception as ex:
-                    caller_errors.append(['p%d' % p, q, type(ex).__name__])
-                progress[p] += 1
-            if closer != 'join' and closer['p'] == p and closer['at'] >= len(programs[p]):
-                do_close('p%d' % p)
-        return body
+                            c.save_recording(r)
+                        sched.emit('req_end', p, q)
+                    except Exception as ex:
+                        caller_errors.append(['p%d' % p, q, type(ex).__name__])
+                    progress[p] += 1
+                if closer != 'join' and closer['p'] == p and closer['at'] >= len(programs[p]):
+                    do_close('p%d' % p)
+            return body
 
-    for p in range(len(programs)):
-        handles.append(S.CoopThread(sched, 'p%d' % p, producer(p)))
-        handles[-1].start()
-    if closer == 'join':
-        def closer_body():
-            for h in handles:
-                h.join()
-            do_close('closer')
-        S.CoopThread(sched, 'closer', closer_body).start()
+        for p in range(len(programs)):
+            handles.append(S.CoopThread(sched, 'p%d' % p, producer(p)))
+            handles[-1].start()
+        if closer == 'join':
+            def closer_body():
+                for h in handles:
+                    h.join()
+                do_close('closer')
+            S.CoopThread(sched, 'closer', closer_body).start()
 
+        try:
+            outcome = sched.run()
+        except S.SchedTimeout as ex:
+            raise InfraError(str(ex))
+        finally:
+            spy.forget()
+
+        # ---- transcript -----------------------------------------------------------------------------------------------
+        steps = []          # the atomic events, as model steps
+        appends = []        # lock-acquisition order of the producers: [p, k] = k-th critical section of producer p (below
+                            # mapped to the program position of its k-th request)
+        n_acq = [0] * len(programs)
+        close_at = None     # number of appends before the stop event was set
+        contention = []     # somebody found the lock held: [who, holder, holder inside a wrapped call]
+        req = {}
+        clock_close_call = None
+        for i, ev in enumerate(sched.events):
+            who, kind = ev[0], ev[1]
+            if kind == 'exec':
+                steps.append('exec')
+            elif kind == 'release' and ev[2] == 'lock':
+                if who == 'flusher':
+                    steps.append('swap')
+                elif who.startswith('p'):
+                    p = int(who[1:])
+                    steps.append('p%d' % p)
+                    appends.append([p, n_acq[p]])
+                    n_acq[p] += 1
+            elif kind == 'acquire' and ev[2] == 'lock':
+                if who == 'flusher':
+                    steps.append('lock')
+            elif kind == 'is_set' and who == 'flusher':
+                steps.append('check')
+            elif kind == 'wake' and who == 'flusher':
+                steps.append('timer')
+            elif kind == 'set':
+                if close_at is None:
+                    close_at = len(appends)
+                steps.append('close')
+            elif kind == 'contend':
+                contention.append([who, ev[3], ev[4] if len(ev) > 4 else None])
+            elif kind == 'req_start':
+                req.setdefault((ev[2], ev[3]), [None, None])[0] = i
+            elif kind == 'req_end':
+                req.setdefault((ev[2], ev[3]), [None, None])[1] = i
+            elif kind == 'close_call' and clock_close_call is None:
+                clock_close_call = i
+        blocked_during_exec = [[who, holder] for who, holder, inside in contention if inside is not None and inside == holder]
+        applied = []
+        for desc, ok in spy.log:
+            pq = descs.get(desc)
+            applied.append((pq + [bool(ok)]) if pq is not None else ['?', list(desc), bool(ok)])
+        fl = sched.by_name.get('flusher')
+        errors = [[t.name, type(t.exc).__name__, str(t.exc)[:200]] for t in sched.threads if t.exc is not None]
+        positions = request_positions(case)
+        appends = [[p, positions[p][k] if k < len(positions[p]) else len(programs[p]) + k] for p, k in appends]
+        impl = {
+            'outcome': outcome,
+            'abort': sched.abort_info if outcome != 'finished' else None,
+            'applied': applied,
+            'flusher_stopped': bool(fl is not None and fl.state == 'done' and outcome == 'finished'),
+            'buffered': len(c._recording_operation_buffer),
+            'store': spy.dump(all_recs(case)),
+            'steps': steps,
+            'appends': appends,
+            'close_at': close_at,
+            'requests': sorted([p, q, a, b] for (p, q), (a, b) in req.items()),
+            'close_call': clock_close_call,
+            'blocked_during_exec': blocked_during_exec,
+            'contention': len(contention),
+            'caller_errors': caller_errors,
+            'thread_errors': errors,
+            'wrapped_closed': spy.closed_calls,
+            'choices': list(sched.choices),
+            'decisions': [{'names': d['names'], 'cur': d['cur'], 'kind': d['kind'], 'default': d['default'],
+                           'chosen': d['chosen']} for d in sched.decisions],
+            'diverged': bool(getattr(chooser, 'diverged', False)),
+            'sched_steps': sched.steps,
+        }
+        return impl
+    originals = {n: getattr(mod, n) for n in ('Thread', 'Event', 'Lock')}
+    mod.Thread, mod.Event, mod.Lock = later('thread'), later('event'), later('lock')
     try:
-        outcome = sched.run()
-    except S.SchedTimeout as ex:
-        raise InfraError(str(ex))
+        return _body()
     finally:
-        spy.forget()
-
-    # ---- transcript -----------------------------------------------------------------------------------------------
-    steps = []          # the atomic events, as model steps
-    appends = []        # lock-acquisition order of the producers: [p, k] = k-th critical section of producer p (below
-                        # mapped to the program position of its k-th request)
-    n_acq = [0] * len(programs)
-    close_at = None     # number of appends before the stop event was set
-    contention = []     # somebody found the lock held: [who, holder, holder inside a wrapped call]
-    req = {}
-    clock_close_call = None
-    for i, ev in enumerate(sched.events):
-        who, kind = ev[0], ev[1]
-        if kind == 'exec':
-            steps.append('exec')
-        elif kind == 'release' and ev[2] == 'lock':
-            if who == 'flusher':
-                steps.append('swap')
-            elif who.startswith('p'):
-                p = int(who[1:])
-                steps.append('p%d' % p)
-                appends.append([p, n_acq[p]])
-                n_acq[p] += 1
-        elif kind == 'acquire' and ev[2] == 'lock':
-            if who == 'flusher':
-                steps.append('lock')
-        elif kind == 'is_set' and who == 'flusher':
-            steps.append('check')
-        elif kind == 'wake' and who == 'flusher':
-            steps.append('timer')
-        elif kind == 'set':
-            if close_at is None:
-                close_at = len(appends)
-            steps.append('close')
-        elif kind == 'contend':
-            contention.append([who, ev[3], ev[4] if len(ev) > 4 else None])
-        elif kind == 'req_start':
-            req.setdefault((ev[2], ev[3]), [None, None])[0] = i
-        elif kind == 'req_end':
-            req.setdefault((ev[2], ev[3]), [None, None])[1] = i
-        elif kind == 'close_call' and clock_close_call is None:
-            clock_close_call = i
-    blocked_during_exec = [[who, holder] for who, holder, inside in contention if inside is not None and inside == holder]
-    applied = []
-    for desc, ok in spy.log:
-        pq = descs.get(desc)
-        applied.append((pq + [bool(ok)]) if pq is not None else ['?', list(desc), bool(ok)])
-    fl = sched.by_name.get('flusher')
-    errors = [[t.name, type(t.exc).__name__, str(t.exc)[:200]] for t in sched.threads if t.exc is not None]
-    positions = request_positions(case)
-    appends = [[p, positions[p][k] if k < len(positions[p]) else len(programs[p]) + k] for p, k in appends]
-    impl = {
-        'outcome': outcome,
-        'abort': sched.abort_info if outcome != 'finished' else None,
-        'applied': applied,
-        'flusher_stopped': bool(fl is not None and fl.state == 'done' and outcome == 'finished'),
-        'buffered': len(c._recording_operation_buffer),
-        'store': spy.dump(all_recs(case)),
-        'steps': steps,
-        'appends': appends,
-        'close_at': close_at,
-        'requests': sorted([p, q, a, b] for (p, q), (a, b) in req.items()),
-        'close_call': clock_close_call,
-        'blocked_during_exec': blocked_during_exec,
-        'contention': len(contention),
-        'caller_errors': caller_errors,
-        'thread_errors': errors,
-        'wrapped_closed': spy.closed_calls,
-        'choices': list(sched.choices),
-        'decisions': [{'names': d['names'], 'cur': d['cur'], 'kind': d['kind'], 'default': d['default'],
-                       'chosen': d['chosen']} for d in sched.decisions],
-        'diverged': bool(getattr(chooser, 'diverged', False)),
-        'sched_steps': sched.steps,
-    }
-    return impl
+        for n, v in originals.items():
+            setattr(mod, n, v)
 
 
 # ------------------------------------------------------------------------------------------------------------------
